@@ -199,6 +199,12 @@ func main() {
 			} else {
 				fmt.Println(c11.EnumSize())
 			}
+		case "C17":
+			if *scenario == "bulkenum" {
+				fmt.Println(c17.BulkEnumSize())
+			} else {
+				fmt.Println(0)
+			}
 		case "C18":
 			if *scenario == "stopenum" {
 				fmt.Println(c18.StopEnumSize())
